@@ -12,7 +12,7 @@ import (
 
 func init() {
 	register(&Prop{
-		ID: "C09", Gen: genC09, Run: runC09, Quick: 1500, Thorough: 60000,
+		ID: "C09", Gen: genC09, Run: runC09, Quick: 1500, Thorough: 200000,
 		Real: []string{"pkg/exporter (SendSet, sanity check, size check, message builder)", "pkg/entities (set/record builders, value encoder)", "pkg/registry"},
 		Stub: []string{"OS sockets (simnet)", "wall clock (synctest bubble)"},
 		Rule: "valid template/data sends interleaved with: data for an unknown template id, wrong field count, messages sized 65519..65540 bytes, undefined set type, values that cannot be encoded for their element; non-trivial = at least one invalid attempt and one later valid send; distinct = distinct event-log hash",
